@@ -13,6 +13,8 @@ vf::Shape shape() {
   sh.n_elems = 3;
   sh.n_points = 1;
   sh.ep = EP_ALL;
+  sh.scalars = {SK_UNIT, SK_UNIT, SK_UNIT};   // where inside the acceptance band the rotation data of X, Y, Z sits
+  sh.ints = {{0, 2}};                          // 0: unit to rounding; 1, 2: anywhere within +-0.9 of the acceptance threshold
   sh.is_float = kIsFloat;
   return sh;
 }
@@ -36,7 +38,21 @@ template <class G> static MatL mat_of(const Spec& s, const G& X, Prec prec) { re
 static void check(Chk& k, const Spec& s, const Case& c, Prec prec) {
   const int R = s.rep();
   const double* p = c.reals.data();
-  const GroupT X = make_elem<GroupT>(p), Y = make_elem<GroupT>(p + R), Z = make_elem<GroupT>(p + 2 * R);
+  // "valid" means accepted by the library: |norm - 1| < eps, not only unit to rounding
+  auto make = [&](int idx) {
+    typename GroupT::DataType d;
+    for (int i = 0; i < R; ++i) d(i) = (Scalar)p[idx * R + i];
+    if (c.ints[0] != 0) {
+      const LD f = 1.0L + 0.9L * (LD)manif::Constants<Scalar>::eps * (2 * (LD)c.reals[3 * R + GroupT::Dim + idx] - 1);
+      for (size_t b = 0; b < s.e.size(); ++b) {
+        const Elem& e = s.e[b];
+        if (e.k == K_RN) continue;
+        for (int i = 0; i < e.nrot(); ++i) { Scalar& v = d(s.rep_off((int)b) + e.rot0() + i); v = (Scalar)((LD)v * f); }
+      }
+    }
+    return GroupT(d);
+  };
+  const GroupT X = make(0), Y = make(1), Z = make(2);
   const typename GroupT::Vector pt = make_pt<GroupT>(p + 3 * R);
   const MatL MX = mat_of(s, X, prec), MY = mat_of(s, Y, prec), MZ = mat_of(s, Z, prec);
   const MatL aX = MX.cwiseAbs(), aY = MY.cwiseAbs(), aZ = MZ.cwiseAbs();
@@ -126,6 +142,7 @@ vf::Outcome run_case(const vf::Case& c, const vf::RunCtx& ctx) {
   if (coeff_w_min(s, xc) < 0 || coeff_w_min(s, yc) < 0) k.label("w<0 operand");
   k.label(std::string("X:") + mag_decade((double)lx));
   k.label(std::string("Y:") + mag_decade((double)ly));
+  k.label(c.ints[0] ? "operands anywhere in the acceptance band" : "operands unit to rounding");
   if (s.has_rotation()) k.label(amin > M_PI - 1e-3 ? "min angle near pi" : (amin < 1e-6 ? "min angle < 1e-6" : "min angle generic"));
   return k.o;
 }
